@@ -7,10 +7,49 @@ NOTE = ("Trusted base: the math/big reference model in harness/ref (self-tested 
         "and for raw-limb observations the reflect layout guards in harness/raw. Runtime monitoring: the verdict covers the executions "
         "listed in the evidence file, not all inputs.")
 
+def ex(text): return text
+
 CHECKS = {
- "C01": ("reference-model monitor (math/big group law) over generated scalar x point x receiver-state cases on the public API",
-         "Exploration: every execution of the five scalar-multiplication entry points is compared (pointer identity, coordinate validity, affine point, encoding) with an independent big-integer double-and-add, under several receiver states per case, with constructed inputs covering the whole group of order 8l, projective rescalings, non-canonical limb forms, digit-extreme scalars and all term counts; coverage of (position, digit) pairs of both recodings is measured. It cannot enumerate l x 8l inputs; it decides the property on what was run.",
-         "5 C01"),
+ "C01": ("reference-model monitor (math/big group law) over generated scalar x point x receiver-state executions of the public API",
+         "Exploration: every execution of the five scalar-multiplication entry points is compared (pointer identity, coordinate validity, affine point, encoding) with an independent big-integer double-and-add, under several receiver states per case, with constructed inputs covering the whole group of order 8l, projective rescalings, non-canonical limb forms, digit-extreme scalars and all term counts; coverage of (position, digit) pairs of both recodings is measured. It cannot enumerate l x 8l inputs; it decides the property on what was run.", "5 C01"),
+ "C02": ("reference-model monitor: affine Edwards addition law in math/big vs. Add/Subtract/Negate/MultByCofactor on structured (8x8 torsion x prime-order combinations) and sampled operand pairs",
+         "Exploration: all 384 structured operand combinations (exceptional cases P=Q, Q=-P, small-order sums, identity) are walked repeatedly with fresh representations, plus independent pairs; each result is checked for validity and equality with the complete addition law. Sampling of the prime-order parts, not enumeration.", "5 C02"),
+ "C03": ("two-run leakage-trace equality monitor on a source-instrumented build generated from the working tree (branches, indices, shift counts, divisors, foreign-call arguments)",
+         "Exploration: for every constant-time entry point the recorded leakage trace under adversarial and uniform secret assignments must equal the trace of a reference assignment; a divergence names the function of the deciding event. The known finding K1 (checkInitialized) is matched by function and witness class and everything else is still a violation. It observes the source-level leakage model only on the executions run.", "3.5, 5 C03"),
+ "C04": ("reference-model monitor: Euler-criterion/ModSqrt decoding oracle vs. Point.SetBytes over constructed 32-byte classes and all other lengths",
+         "Exploration: accept/reject and the decoded point are compared with the oracle over boundary, non-canonical, neighbour, bit-flip and uniform inputs and every wrong length up to 100. 2^256 inputs are sampled by class, not enumerated.", "5 C04"),
+ "C05": ("reference-model monitor: RFC 8032 encoding of the model point vs. Bytes() over every construction route/projective scaling/history of the same point; round trips",
+         "Exploration: representation independence is exercised by encoding the same model point through 10 public-API routes per case and through different operation histories; sampled points.", "5 C05"),
+ "C06": ("reference-model monitor: model equality vs. Point.Equal over related pairs (same point in two representations, torsion translates, negatives, shared coordinate, 8x8 small-order pairs)",
+         "Exploration: both argument orders, all relations that share coordinates, exhaustive small-order pairs; sampled prime-order parts.", "5 C06"),
+ "C07": ("reference-model monitor: math/big arithmetic mod l vs. Scalar operations; raw Montgomery limb bound; Equal on all 253 single-bit Montgomery differences",
+         "Exploration: class x class operand pairs, multiple construction routes, every bit of Equal's OR-fold exercised in isolation; millions of evaluations, not l^3.", "5 C07"),
+ "C08": ("reference-model monitor: integer comparison / mod l / RFC 8032 clamping vs. the scalar setters and Bytes over boundary-constructed byte strings and all lengths",
+         "Exploration: the accept boundary is probed at every byte position of the lexicographic comparison, wide reduction at every single bit and near 2^512, every wrong length; sampled otherwise.", "5 C08"),
+ "C09": ("reference-model monitor + invariant assertion: math/big mod p vs. field operations on operands in reachable representations (incl. constructed limb-maximal ones) and over guided operation histories; limb bound 2^52 asserted on every output",
+         "Exploration: only representations reachable through the public API are used, worst cases are constructed (limbs at 2^51+2^32, limb0 at 2^51+19*2^32) and approached by a magnitude-guided history search; the closed bound is approached, not enumerated.", "5 C09"),
+ "C10": ("reference-model monitor: residues mod p vs. SetBytes/SetWideBytes/Bytes/Equal/IsNegative across representations; bit-for-bit Select/Swap check on raw limbs",
+         "Exploration: all 19 non-canonical encodings, boundary residues in all 12 recipes, single bits of the wide input; sampled otherwise.", "5 C10"),
+ "C11": ("differential monitor: every exported method x every set partition of {receiver, same-typed arguments} run with aliased vs. distinct storage; raw before/after snapshots of all non-written objects, slices and their neighbourhood",
+         "Exploration: the method x partition table (108 combinations) is enumerated completely and repeatedly with fresh values; argument values are sampled.", "5 C11"),
+ "C12": ("invariant hooks over generated operation histories with a shadow model: coordinate validity (big ints), model agreement, bit-for-bit immutability of non-receivers, Equal sweeps, package-globals digest",
+         "Exploration: thousands of programs of 30-200 public operations with aliasing and zero-value receivers; the invariant is checked after every step; histories are sampled.", "3.3, 5 C12"),
+ "C13": ("reference-model monitor: the three validity conditions in math/big vs. SetExtendedCoordinates over valid quadruples and single-condition violations in every representation of zero; export/re-import",
+         "Exploration: each way of violating exactly one condition, all-zero in 6 representations of zero, aliased arguments; sampled otherwise.", "5 C13"),
+ "C14": ("state-snapshot monitor: raw receiver/input snapshots around the seven fallible setters for invalid and valid inputs x receiver states",
+         "Exploration: all wrong lengths up to 100, content failures, four receiver states; sampled contents.", "5 C14"),
+ "C15": ("enumerated misuse monitor: recover() around every exported Point operation x every subset of zero-value input positions, multi-scalar element positions and length pairs; zero-value pure receivers checked against the model",
+         "Exploration: the (operation, position) table is enumerated completely; the other argument values are sampled.", "5 C15"),
+ "C16": ("reference-model monitor: SQRT_RATIO_M1 written from the specification (Euler criterion + ModSqrt) vs. SqrtRatio over (u,v) classes x representations x receiver aliasing",
+         "Exploration: all case classes of the contract incl. (0,0), (u,0), +-i ratios; sampled values.", "5 C16"),
+ "C17": ("reference-model monitor: (1+y)/(1-y) in math/big and crypto/ecdh X25519 public keys vs. BytesMontgomery",
+         "Exploration: whole-group points in all construction routes plus an independent second oracle; sampled.", "5 C17"),
+ "C18": ("Go race detector over cold child processes with simultaneous first use (injected delays at construction entries) + entry-counter monitor (each sync.Once body at most once, construction counts equal to a sequential cold process) + concurrent vs. sequential transcripts + cross-process package-state digests",
+         "Exploration of schedules: 40 (quick) / 600 (thorough) cold processes with 2-64 goroutines; contention is measured, not assumed. Only schedules the Go scheduler plus delays produce are seen.", "3.7, 5 C18"),
+ "C19": ("history monitor with mutation steps: scribbling over every kind of returned value followed by probe calls with model-known answers, memory-overlap checks, purity memo, package-globals digest (in-process and across processes, cold and warm)",
+         "Exploration: thousands of programs; every mutation is followed by probes; half of the processes use the tables for the first time after mutations.", "5 C19"),
+ "C20": ("cross-build differential monitor: the same seeded workload in the default (assembly) and purego builds, per-chunk transcripts compared by the controller; math/big oracle and limb bound in each build; guard pages around the assembly operands",
+         "Exploration: Multiply/Square on limb-maximal reachable operands in all aliasing patterns at page edges, plus a deterministic whole-API program, under both configurations this machine can execute.", "3.7, 5 C20"),
 }
 NOT_YET = {}
 
